@@ -115,8 +115,15 @@ func runSolver(ctx context.Context, sc solverCfg, file string, secs int) (string
 	var out bytes.Buffer
 	cmd.Stdout = &out
 	cmd.Stderr = &out
-	_ = cmd.Run()
+	t0 := time.Now()
+	runErr := cmd.Run()
 	o := out.String()
+	if o == "" && cctx.Err() == nil && time.Since(t0) < time.Duration(secs)*time.Second/2 {
+		// the solver process died (or never started) without an answer and well before its
+		// limit: a resource hiccup, not a verdict - say so, so that the caller retries
+		_ = runErr
+		return "died", fmt.Sprint(runErr)
+	}
 	if strings.Contains(o, "(error") {
 		// z3 4.8.12 prints an error for get-model after unsat: not a script error
 		first := strings.TrimSpace(strings.SplitN(strings.TrimSpace(o), "\n", 2)[0])
@@ -140,6 +147,20 @@ func runSolver(ctx context.Context, sc solverCfg, file string, secs int) (string
 
 // discharge decides one obligation: a quick attempt on z3-new, then a race of all solvers.
 func discharge(file string, quickSecs, fullSecs int) (verdict, solver, output string, tried []string) {
+	for attempt := 0; ; attempt++ {
+		verdict, solver, output, tried = dischargeOnce(file, quickSecs, fullSecs)
+		died := false
+		for _, t := range tried {
+			died = died || strings.HasSuffix(t, ":died")
+		}
+		if verdict == "sat" || verdict == "unsat" || !died || attempt >= 2 {
+			return
+		}
+		time.Sleep(time.Duration(500*(attempt+1)) * time.Millisecond)
+	}
+}
+
+func dischargeOnce(file string, quickSecs, fullSecs int) (verdict, solver, output string, tried []string) {
 	ctx := context.Background()
 	v, o := runSolver(ctx, solvers[0], file, quickSecs)
 	tried = append(tried, solvers[0].name+":"+v)
@@ -191,7 +212,19 @@ var solverSlots = make(chan struct{}, 16)
 func solveAll(g *Gen, obs []*Oblig, dir string, workers, quickSecs, fullSecs int) []*Result {
 	os.MkdirAll(dir, 0o755)
 	pre := g.preludeText(false)
-	body := g.s.body()
+	// per-obligation script slices (computed sequentially: the definition index is shared)
+	bodies := make([]string, len(obs))
+	whole := ""
+	for k, o := range obs {
+		if len(o.Ranges) == 0 || os.Getenv("KVC_NOSLICE") != "" {
+			if whole == "" {
+				whole = g.s.body()
+			}
+			bodies[k] = whole
+		} else {
+			bodies[k] = g.s.bodyFor(o.Ranges, o.PC, o.Goal)
+		}
+	}
 	res := make([]*Result, len(obs))
 	var wg sync.WaitGroup
 	sem := make(chan struct{}, workers)
@@ -205,7 +238,7 @@ func solveAll(g *Gen, obs []*Oblig, dir string, workers, quickSecs, fullSecs int
 			solverSlots <- struct{}{}
 			defer func() { <-solverSlots }()
 			file := filepath.Join(dir, sanitize(o.Name)+".smt2")
-			os.WriteFile(file, []byte(obligQuery(pre, body, o, "")), 0o644)
+			os.WriteFile(file, []byte(obligQuery(pre, bodies[k], o, "")), 0o644)
 			t0 := time.Now()
 			var v, s, out string
 			var tried []string
